@@ -8,3 +8,7 @@ NOTES = ("All checks: ./check <ID> <quick|thorough>; VERIF_SEED selects the seed
 add("C19", "exploration", "runtime monitor: independent reference root + independent path verifier over every (n, index), exhaustive in n<=N",
     "Every leaf count n<=1024 (quick) / 4096 (thorough) and every leaf index is executed against the real MerkleTree; an independent root/verify implementation is the oracle; held = no contradiction on those executions (exhaustive in n and index, sampled in leaf values).",
     "Trusts x/crypto sha3; leaf hashes are distinct 64-hex strings; does not range over all leaf values.")
+
+add("C18", "exploration", "runtime monitor: math/big and IEEE reference oracle over exhaustive boundary-pair table plus seeded random operands",
+    "Every exported currency helper is executed on the exhaustive B x B boundary table (B ~290 values), on products that are multiples of 2^64, on millions of random pairs/floats/decimal amounts and compared with exact big-number / IEEE-truncation / shortest-decimal references; panics are caught and reported. Held = no disagreement on the evaluations listed in the evidence.",
+    "Trusts math/big, strconv shortest formatting and big.Rat parsing; boundary table exhaustive, remainder sampled from the seed.")
